@@ -20,7 +20,7 @@ def run(ctx):
     r = ctx.gen_to_file("MC_RPC", ctx.cfg_variant("MC_RPC.cfg", dict(Emit="TRUE", MaxReqs=0)), path, workers=4, label="gen-batches")
     if r["emitted"] < 100:
         raise Broken("MC_RPC emitted too few batches")
-    ctx.run_replay("replay-rpc", ["-in", path, "-seed", seed, "-updog", updog, "-stride", "1" if thorough else "4"], "replay-rpc", sigkeys=("kind",), timeout=3000)
+    ctx.run_replay("replay-rpc", ["-in", path, "-seed", seed, "-updog", updog, "-stride", "1" if thorough else "4"] + (["-binprobe"] if ctx.pid == "C13" else []), "replay-rpc", sigkeys=("kind",), timeout=3000)
     ctx.cov["exhaustive"] = True
     tr = os.path.join(ctx.work, "rpc_trace.ndjson")
     ctx.record("record-rpc", ["-seed", seed, "-updog", updog, "-n", "1500" if thorough else "300"], tr, timeout=3000)
